@@ -304,6 +304,15 @@ func DrawCore(prop, tier string, ch *Chooser, lean bool, s *Sim) *Core {
 		if p.unbindPct > 0 && ch.Choose(2) == 1 {
 			cfg.Routes = cfg.Routes[:len(cfg.Routes)-1] // no unbind route
 		}
+		if prop == "C01" && ch.Choose(2) == 1 {
+			// search routes with criteria in front of the catch-all one: every
+			// search request is compared with them before it is served, and
+			// must reach its handler unchanged by that
+			cfg.Routes = append([]RouteSpec{
+				{Kind: "search", BaseDN: "ou=nobody,dc=never,dc=matches", Label: "crit-dn"},
+				{Kind: "search", Filter: "(cn=never-matches)", Scope: int64(1 + ch.Choose(2)), Label: "crit-filter"},
+			}, cfg.Routes...)
+		}
 		if ch.Chance(p.noTLSRoute) {
 			// the application handles StartTLS in its default route
 			var rs []RouteSpec
